@@ -119,7 +119,31 @@ def h06b(c, L=2):
             c.cover("queue-ahead")
 
 
+class _Only:
+    def __init__(self, c, keep):
+        object.__setattr__(self, "_c", c)
+        object.__setattr__(self, "_keep", keep)
+
+    def __getattr__(self, k):
+        return getattr(self._c, k)
+
+    def __setattr__(self, k, v):
+        setattr(self._c, k, v)
+
+    def ob(self, name, cond, **tags):
+        if any(x in name for x in self._keep):
+            self._c.ob(name, cond, **tags)
+
+
+def h06c(c, U=3):
+    """loop level (C07 world): a placement reaches the simulated exchange against the book of the previous update, so its queue
+    position is the one shown before the trades of the update that delivers it - volume that traded before it arrived never fills it"""
+    from .c07 import h07
+    h07(_Only(c, ("against-previous-book", "queue-captured-from-previous-book", "pending-no-fills", "no-exception")), U=U, R=1)
+
+
 HARNESSES = [
+    Harness("H06c", h06c, quick=dict(U=3), thorough=dict(U=4), pattern="P3 with symbolic time", requires=["run", "executed"]),
     Harness("H06a", h06a, quick=dict(r=2, v=2, s=2), thorough=dict(r=3, v=2, s=2), pattern="P2 inductive step", requires=["lone", "group", "priority", "fill"],
             wall_s=(300, 3000), max_paths=(300000, 5000000),
             outside=["simulation_available_prices=True (documented double-counting mode, excluded by the property)", "more than r resting orders / v traded price levels per update",
